@@ -135,8 +135,10 @@ Qed.
 Lemma lmap_secs_lines h ss l : secs_lines (lmap_secs h l ss) = secs_lines ss.
 Proof. apply lmap_secs_lines_of. apply Forall_forall. intros s _. apply lmap_sec_lines. Qed.
 
-Lemma items_rows_lmap h : forall its l, map RItem (lmap_items h l its) = lmap_rows h l (map RItem its).
-Proof. induction its as [|i r IH]; intros l; [reflexivity|]. cbn [lmap_items map lmap_rows]. now rewrite IH. Qed.
+Lemma items_rows_lmap h : forall its l, map elem_row (lmap_items h l its) = lmap_rows h l (map elem_row its).
+Proof.
+  induction its as [|[i|ws] r IH]; intros l; [reflexivity| |]; cbn [lmap_items lmap_elem map elem_row lmap_rows]; now rewrite IH.
+Qed.
 Lemma block_rows_lmap h b l : block_rows (lmap_items h l b) = lmap_rows h l (block_rows b).
 Proof.
   unfold block_rows. rewrite lmap_rows_app, items_rows_lmap. reflexivity.
@@ -189,8 +191,10 @@ Definition item_key (li : nat * item) : nat * option str := (fst li, ident_zid (
 Section Keys.
   Variable today : date.
   Lemma items_keys ot op od key : forall its l,
-    map note_key (spec_items today ot op od key l its) = map item_key (row_items l (map RItem its)).
-  Proof. induction its as [|i r IH]; intros l; [reflexivity|]. cbn [spec_items map row_items]. now rewrite IH. Qed.
+    map note_key (spec_items today ot op od key l its) = map item_key (row_items l (map elem_row its)).
+  Proof.
+    induction its as [|[i|ws] r IH]; intros l; [reflexivity| |]; cbn [spec_items map elem_row row_items]; now rewrite IH.
+  Qed.
   Lemma block_keys ot op od key b l :
     map note_key (spec_items today ot op od key l b) = map item_key (row_items l (block_rows b)).
   Proof.
@@ -406,9 +410,9 @@ Qed.
 (* non-vacuity *)
 Definition wb_page : apage :=
   mkPg [WId (S "Title")]
-       [[mkItem None None (IPlain (S "foo")) [WTag KProject (S "p1")];
-         mkItem (Some TOpen) (Some (S "P2")) (IZid (S "240105#0A")) [WId (S "bar")]]] []
-       [GSec [WId (S "One")] [[mkItem (Some TOpen) None (ILong (S "2024-02-02")) [WId (S "x1")]]] []].
+       [[BItem (mkItem None None (IPlain (S "foo")) [WTag KProject (S "p1")]);
+         BItem (mkItem (Some TOpen) (Some (S "P2")) (IZid (S "240105#0A")) [WId (S "bar")])]] []
+       [GSec [WId (S "One")] [[BItem (mkItem (Some TOpen) None (ILong (S "2024-02-02")) [WId (S "x1")])]] []].
 Definition wb_zf (l : nat) : str := if Nat.eqb l 3 then S "240601#00" else S "240202#00".
 Example wb_page_example :
   zid_targets wb_zf (spec_page (mkDate 2024 6 1) wb_page) = [(3, S "240601#00"); (8, S "240202#00")] /\
